@@ -201,7 +201,13 @@ func WriteCases(p *Prop, cases []Case, out string, meta *Meta) error {
 			}
 			sb.WriteString("\n")
 		}
-		sb.WriteString("].\nDefinition M := Eval vm_compute in mm cases.\nSet Printing Width 1000000.\nSet Printing Depth 1000000.\nPrint M.\n")
+		// VERIF_SEARCH_MM (set by the driver only while it searches for a failing input after an obligation broke)
+		// names a stricter mismatch function of the property's Corr file, e.g. C19's mm_search
+		mmName := "mm"
+		if v := os.Getenv("VERIF_SEARCH_MM"); v != "" {
+			mmName = v
+		}
+		sb.WriteString("].\nDefinition M := Eval vm_compute in " + mmName + " cases.\nSet Printing Width 1000000.\nSet Printing Depth 1000000.\nPrint M.\n")
 		if err := os.WriteFile(filepath.Join(out, name), []byte(sb.String()), 0o644); err != nil {
 			return err
 		}
